@@ -131,12 +131,14 @@ def gen_cases(draw):
     asc = draw(st.booleans())
     pre = draw(st.sampled_from([None, None, None, 'same_function', 'other_function']))
     if draw(st.integers(0, 2)) == 0:
-        return {'plain': draw(json_plain()), 'indent': ind, 'ascii': asc, 'prelude': pre}
+        return {'plain': draw(json_plain()), 'indent': ind, 'ascii': asc, 'prelude': pre,
+                'sink': draw(st.booleans())}
     spec = draw(gen.models(FEATS))
     v = draw(gen.vspec_for(spec, spec['doc_type'], hard=True, finite=True))
     if v is None:
         return {'plain': draw(json_plain()), 'indent': ind, 'ascii': asc}
-    return {'model': spec, 'value': v, 'indent': ind, 'ascii': asc, 'prelude': pre}
+    return {'model': spec, 'value': v, 'indent': ind, 'ascii': asc, 'prelude': pre,
+            'sink': draw(st.booleans())}
 
 
 def to_cmp(p):
@@ -275,6 +277,23 @@ def check(case, ctx):
         ctx.sample('%s_indent_%s_%s' % ('plain' if spec is None else 'model',
                                         'none' if ind is None else 'n', 'ascii' if asc else 'unicode'),
                    {'value': canon(value), 'indent': ind, 'ensure_ascii': asc, 'json': text[:300]})
+    # dump_json (to a stream) is the same emitter: identical text for the same options
+    if case.get('sink') and not any(0xD800 <= ord(ch) <= 0xDFFF for ch in text):
+        import io
+        dump = yatiml.dump_json_function(*m.registered)
+        buf = io.StringIO()
+        try:
+            dump(value, buf, **kw)
+        except Exception as e:
+            ctx.finding('valid', 'dump_json_raises:' + exc_signature(e),
+                        'dump_json to a stream raised %s: %s although dumps_json succeeded\n  %s'
+                        % (type(e).__name__, e, desc()))
+            return
+        ctx.count('dump_json_stream_compared')
+        if buf.getvalue() != text:
+            ctx.finding('content', 'dump_json_differs_from_dumps_json',
+                        'dump_json wrote %r\n  dumps_json returned %r\n  %s' % (buf.getvalue(), text, desc()))
+            return
     # (a) strict JSON by two judges
     try:
         parsed, ws = jsonv.parse(text)
